@@ -13,6 +13,7 @@ import shutil
 from pathlib import Path
 
 import core
+import lintfileargs
 import workflow
 import projmodel
 from props import c06
@@ -255,9 +256,11 @@ def run(ctx: core.Ctx) -> int:
                 pass
     # Workflow.tla: lint-file interleaved with the modifying commands: its exit status is the verdict on the named files
     wf = workflow.stage(ctx, ("C13.", "crash"))
+    # LintFileArgs.tla: what lint-file makes of one argument (14 kinds of argument x 3 ways of naming it), the whole table replayed
+    lf = lintfileargs.stage(ctx, ("C13.", "crash"))
     return ctx.finish(
-        mc_violations=wf["mc_violations"],
-        evaluations=n_inv + len(wf["events"]),
+        mc_violations=wf["mc_violations"] + lf["mc_violations"],
+        evaluations=n_inv + len(wf["events"]) + len(lf["events"]),
         distinct_nontrivial=len({e["label"] for e in events if e.get("exits", {}).get("json") == 1}),
         rule="project states from Lint.tla (all per-file information states x all subsets of inventory defects; quick: a "
              "seeded sample of 500) and TLC-sampled Inventory projects, names with blanks / non-ASCII; per state: lint in "
